@@ -455,7 +455,35 @@ type LockMon struct {
 	mu   sync.Mutex
 	Viol []string
 	// Probes counts the probes made (generator health).
-	Probes int64
+	Probes          int64
+	onReadLockedGet func()
+}
+
+// ArmOnReadLockedGet installs a one-shot hook that runs inside the next
+// LocationBlobMap.Get call made while only a READ lock is held (the first,
+// read-locked section of Get / GetFromComposite / FindMissing).
+func (m *LockMon) ArmOnReadLockedGet(f func()) {
+	m.mu.Lock()
+	m.onReadLockedGet = f
+	m.mu.Unlock()
+}
+
+func (m *LockMon) takeOnReadLockedGet() func() {
+	m.mu.Lock()
+	f := m.onReadLockedGet
+	m.mu.Unlock()
+	if f == nil {
+		return nil
+	}
+	// Read-locked only: no writer holds the lock.
+	if !m.Lock.TryRLock() {
+		return nil
+	}
+	m.Lock.RUnlock()
+	m.mu.Lock()
+	m.onReadLockedGet = nil
+	m.mu.Unlock()
+	return f
 }
 
 func (m *LockMon) flag(what string) {
@@ -492,6 +520,9 @@ type lbmMon struct {
 
 func (l *lbmMon) Get(loc local.Location) (local.LocationBlobGetter, bool) {
 	l.m.needHeld("LocationBlobMap.Get")
+	if f := l.m.takeOnReadLockedGet(); f != nil {
+		f()
+	}
 	g, needsRefresh := l.inner.Get(loc)
 	return func(d digest.Digest) buffer.Buffer {
 		l.m.needHeld("a LocationBlobGetter was opened")
